@@ -897,3 +897,106 @@ def inline_private_helpers(idx: Index, fi: FunctionInfo, depth: int = 2) -> Func
     node.body = [s for s in node.body if not (isinstance(s, ast.FunctionDef) and s.name in used_nested)]
     ast.fix_missing_locations(node)
     return FunctionInfo(name=fi.name, qualname=fi.qualname, module=fi.module, node=node, cls=fi.cls, decorators=list(fi.decorators))
+
+
+# ---------------------------------------------------------------------- abstract evaluation of small literal lists
+
+def bind_target(target: ast.AST, value: ast.AST, env: Dict[str, ast.AST]) -> Optional[Dict[str, ast.AST]]:
+    """env extended by destructuring `target = value` (names and tuples of names against tuple/list literals)."""
+    out = dict(env)
+    if isinstance(target, ast.Name):
+        out[target.id] = value
+        return out
+    if isinstance(target, (ast.Tuple, ast.List)) and isinstance(value, (ast.Tuple, ast.List)) and len(target.elts) == len(value.elts):
+        for t, v in zip(target.elts, value.elts):
+            r = bind_target(t, v, out)
+            if r is None:
+                return None
+            out = r
+        return out
+    return None
+
+
+def list_elements(S: Sem, e: ast.AST, at: int, env: Optional[Dict[str, ast.AST]] = None, depth: int = 6) -> Optional[List[ast.AST]]:
+    """The explicit elements of a list-valued expression when they can be enumerated statically: literal tuples/lists,
+    range(n) with constant n, zip / enumerate of such, comprehensions over such, a local list built by `x = []` and one
+    `x.append(v)` inside a loop over such, and single-expression private helpers returning such.  None if not enumerable."""
+    env = env or {}
+    if depth <= 0:
+        return None
+    e = S._subst(e, env)
+    if isinstance(e, (ast.Tuple, ast.List)):
+        return list(e.elts)
+    if isinstance(e, ast.Call):
+        cn = call_name(e)
+        if cn == "range" and len(e.args) == 1 and isinstance(e.args[0], ast.Constant) and isinstance(e.args[0].value, int):
+            return [ast.Constant(value=k) for k in range(e.args[0].value)]
+        if cn == "zip" and e.args and not e.keywords:
+            cols = [list_elements(S, a, at, {}, depth - 1) for a in e.args]
+            if any(c is None for c in cols):
+                return None
+            n = min(len(c) for c in cols)
+            return [ast.Tuple(elts=[c[i] for c in cols], ctx=ast.Load()) for i in range(n)]
+        if cn == "enumerate" and len(e.args) == 1:
+            inner = list_elements(S, e.args[0], at, {}, depth - 1)
+            if inner is None:
+                return None
+            return [ast.Tuple(elts=[ast.Constant(value=i), x], ctx=ast.Load()) for i, x in enumerate(inner)]
+        if cn in ("list", "tuple") and len(e.args) == 1:
+            return list_elements(S, e.args[0], at, {}, depth - 1)
+        inl = S._inline(e, at, 6, set(), False) if S.inline_helpers else None
+        if inl is not None:
+            return list_elements(S, inl, at, {}, depth - 1)
+        return None
+    if isinstance(e, (ast.ListComp, ast.GeneratorExp)):
+        outs: List[Dict[str, ast.AST]] = [dict()]
+        for ge in e.generators:
+            nxt: List[Dict[str, ast.AST]] = []
+            for sub in outs:
+                els = list_elements(S, ge.iter, at, sub, depth - 1)
+                if els is None or ge.ifs:
+                    return None
+                for el in els:
+                    b = bind_target(ge.target, el, sub)
+                    if b is None:
+                        return None
+                    nxt.append(b)
+            outs = nxt
+        return [S._subst(e.elt, sub) for sub in outs]
+    if isinstance(e, ast.Name):
+        ds = S.du.reaching(e.id, at)
+        if len(ds) != 1 or ds[0].value is None or ds[0].kind != "assign":
+            return None
+        v = ds[0].value
+        if (isinstance(v, ast.List) and not v.elts) or norm(v) == "list()":
+            apps = [c for c in ast.walk(S.node) if isinstance(c, ast.Call) and isinstance(c.func, ast.Attribute) and c.func.attr == "append"
+                    and norm(c.func.value) == e.id and len(c.args) == 1]
+            if len(apps) != 1:
+                return None
+            loops = [l for l in reversed([x for x in _ancestors(S, apps[0]) if isinstance(x, ast.For)])]
+            if any(isinstance(x, (ast.If, ast.While)) for x in _ancestors(S, apps[0])):
+                return None
+            envs: List[Dict[str, ast.AST]] = [dict()]
+            for l in loops:
+                nxt2: List[Dict[str, ast.AST]] = []
+                for sub in envs:
+                    els = list_elements(S, l.iter, S.cfg.node(l), sub, depth - 1)
+                    if els is None:
+                        return None
+                    for el in els:
+                        b = bind_target(l.target, el, sub)
+                        if b is None:
+                            return None
+                        nxt2.append(b)
+                envs = nxt2
+            return [S._subst(apps[0].args[0], sub) for sub in envs]
+        return list_elements(S, v, ds[0].node, {}, depth - 1)
+    return None
+
+
+def _ancestors(S: Sem, n: ast.AST) -> List[ast.AST]:
+    out = []
+    while n in S.pm and S.pm[n] is not S.node:
+        n = S.pm[n]
+        out.append(n)
+    return out
